@@ -35,7 +35,8 @@ VARIABLES pc, socks, req, err, cfg, upd, target, opens, cache, mon, obs
 vars == <<pc, socks, req, err, cfg, upd, target, opens, cache, mon, obs>>
 
 NoReq == [host |-> "", dk |-> "", ip |-> 0, port |-> 0, tp |-> ""]
-Unset == <<"unset">>
+\* the cached socket list of the design variant: a record of stable shape (valid = FALSE: not computed yet)
+Unset == [valid |-> FALSE, list |-> <<>>]
 Init == /\ pc = "down" /\ socks = <<>> /\ req = NoReq /\ err = "none" /\ cfg = "" /\ upd = "none" /\ target = ""
         /\ opens = 0 /\ cache = Unset /\ mon = MonInit /\ obs = <<>>
 Live == mon.bad = <<>>
@@ -90,14 +91,14 @@ ParsedGuard(s) == /\ req.port = s.port /\ s.tp = req.tp
                      \/ req.host = s.host
                      \/ req.ip # 0 /\ req.ip = s.ip
 \* what the guard iterates over
-Seen == IF CacheSockets THEN (IF cache = Unset THEN socks ELSE cache) ELSE socks
+Seen == IF CacheSockets THEN (IF cache.valid THEN cache.list ELSE socks) ELSE socks
 SelfByCode == CASE Guard = "text" -> \E i \in 1..Len(Seen) : TextGuard(Seen[i])
                 [] Guard = "parsed" -> \E i \in 1..Len(Seen) : ParsedGuard(Seen[i])
                 [] OTHER -> \E i \in 1..Len(Seen) : Denotes(req, Seen[i])
 
 ConnectHook ==
   /\ Live /\ pc = "hook" /\ pc' = "decided" /\ UNCHANGED <<socks, req, cfg, upd, target, opens>>
-  /\ cache' = IF CacheSockets THEN Seen ELSE cache
+  /\ cache' = IF CacheSockets THEN [valid |-> TRUE, list |-> Seen] ELSE cache
   /\ err' = IF SelfByCode THEN "destination_unknown" ELSE "none"
   /\ Emit(<<[k |-> "hook", err |-> err']>>)
 
